@@ -3,8 +3,7 @@
    threads; every dq_state read-modify-write is the body generated from the source): 1. width accounting,
    2. exclusion, 3. order (FIFO around barriers for queued items, acquisition order for the fast paths),
    4. no stuck state; plus the word-level guards of the generated bodies for all 2^64 words (first section).
-   PARTIAL where the name says so: C04_barrier_orders_fastpath_partial (the dispatch_barrier_sync fast path against an
-   item whose push completed but which is still queued).
+   The first section (word-level guards, names ending in _partial) is kept from the earlier stage of the work.
    The model is tied to the library by the site lists (C04_model_sites_match) and by the trace check of lib/props/c04.py
    (C04_trace_judges_sound is the soundness of its judges). *)
 From Coq Require Import ZArith Bool List.
@@ -178,16 +177,29 @@ Theorem C04_barrier_orders_barrier_waits : forall W s1 s2 i b, 2 <= W <= 4094 ->
 Proof. exact barrier_waits_for_earlier_items. Qed.
 Print Assumptions C04_barrier_orders_barrier_waits.
 
-(* the reader fast paths (dispatch_sync, dispatch_async redirect) are taken only when their tail test found the list
-   empty: everything pushed before that test is then already acquired, so the two theorems above order the fast-path
-   item after every barrier pushed earlier.  PARTIAL with respect to the full property: for the dispatch_barrier_sync
-   fast path (no tail test; _dispatch_queue_try_acquire_barrier_sync needs the idle word) the statement "an item whose
-   push has completed, wakeup included, keeps the word non-idle until it is taken off the list" is not proved here. *)
-Theorem C04_barrier_orders_fastpath_partial : forall W s t s', 2 <= W <= 4094 -> reach W s -> gstep W s t = Some s' ->
-  ((pcs s t = S_tail /\ pcs s' t = S_rsv 0) \/ (exists q ovr, pcs s t = A_tail false q ovr /\ pcs s' t = A_acq q ovr)) ->
+(* the three fast paths (dispatch_sync, dispatch_barrier_sync, the dispatch_async redirect) are taken only when their tail
+   test found the list empty: everything pushed before that test is then already acquired, so the two theorems above
+   order the fast-path item after every barrier pushed earlier, and a fast-path barrier after everything pushed earlier.
+   (For dispatch_barrier_sync the tail test is the repair of a defect found with this model, /repo 43b9c73: the idle
+   dq_state alone does not show items whose first enqueuer has not made its wakeup yet.) *)
+Theorem C04_barrier_orders_fastpath : forall W s t s', 2 <= W <= 4094 -> reach W s -> gstep W s t = Some s' ->
+  ((pcs s t = S_tail /\ pcs s' t = S_rsv 0) \/ (pcs s t = B_tail /\ pcs s' t = B_acq) \/
+   (exists q ovr, pcs s t = A_tail false q ovr /\ pcs s' t = A_acq q ovr)) ->
   forall x, In x (pushed s) -> acquired s x.
 Proof. exact tail_test_sees_all_acquired. Qed.
-Print Assumptions C04_barrier_orders_fastpath_partial.
+Print Assumptions C04_barrier_orders_fastpath.
+
+(* the composition, as the real-time statement about the fast paths: x was pushed before thread t made the tail test of
+   its fast path; whatever is acquired after that test (in particular the item of t's own call) is acquired only after x
+   has finished, if x or that item is a barrier *)
+Theorem C04_barrier_orders_fastpath_realtime : forall W s t s' s2 x j, 2 <= W <= 4094 -> reach W s -> valid_tid t ->
+  gstep W s t = Some s' ->
+  ((pcs s t = S_tail /\ pcs s' t = S_rsv 0) \/ (pcs s t = B_tail /\ pcs s' t = B_acq) \/
+   (exists q ovr, pcs s t = A_tail false q ovr /\ pcs s' t = A_acq q ovr)) ->
+  later W s' s2 -> In x (pushed s) -> acquired s2 j -> ~ acquired s j ->
+  (kinds s x = true \/ kinds s2 j = true) -> In x (finished s2).
+Proof. exact fastpath_realtime_order. Qed.
+Print Assumptions C04_barrier_orders_fastpath_realtime.
 
 (* both hypotheses sets are satisfiable: a barrier (id 2) pushed behind two running readers (0, 1) and an async item (3)
    pushed behind the barrier; first the barrier runs alone with 0 and 1 finished and 3 still queued, later 3 runs with
